@@ -53,7 +53,10 @@ def pipeline(tier):
     if p.returncode != 0:
         raise Inconclusive("reason harness failed (exit %d):\n%s" % (p.returncode, p.stdout[-3000:]))
     rlines = [json.loads(l) for l in open(ropath)]
-    res["reason_cases"] = sum(len(l["events"]) for l in rlines)
+    res["reason_cases"] = sum(1 for l in rlines for e in l["events"] if e["ev"] == "Reason")
+    res["real_function_pairs"] = sum(1 for l in rlines for e in l["events"] if e["ev"] == "RealReason")
+    if res["real_function_pairs"] < 20:
+        raise Inconclusive("reason harness compared only %d pairs of real functions" % res["real_function_pairs"])
     if res["reason_cases"] != len(vecs):
         raise Inconclusive("reason harness answered %d of %d cases" % (res["reason_cases"], len(vecs)))
     lines += rlines
@@ -65,7 +68,7 @@ def pipeline(tier):
     for v in viols:
         for x in v["viol"]:
             e = by_id[v["id"]]["events"][x["at"] - 1]
-            if e["ev"] == "Reason":
+            if e["ev"] in ("Reason", "RealReason"):
                 out.append({"prop": "C16", "what": x["what"], "id": v["id"], "reason": e})
                 continue
             out.append({"prop": "C16", "what": x["what"], "id": v["id"], "old": e["old"], "new": e["new"], "res": e["res"]})
@@ -81,6 +84,8 @@ def size(v):
 
 
 def sig_of(v):
+    if "reason" in v and "classes" not in v["reason"]:
+        return "C16|%s|functions %s" % (v["what"], v["reason"].get("name"))
     if "reason" in v:
         return "C16|%s|%d parts differ" % (v["what"], sum(1 for c in v["reason"]["classes"] if c != "same"))
     o, n = v["old"], v["new"]
